@@ -69,6 +69,7 @@ func vNondetErr(name string) error       { return nil }
 func vHavocBytes(b []byte, name string)  {}
 func vBencode(v interface{}) []byte      { return nil }
 func vUnsafeClass(k int)                 {}
+func vTickers(mask, budget int)          {}
 func vOutUnsafe() bool                   { return false }
 func vLastEncoded() interface{}          { return nil }
 func vAnd(a, b bool) bool                { return a && b }
